@@ -29,7 +29,7 @@ LEVEL_NOTE = (
 )
 TECHNIQUE = "property-based testing: weakref liveness invariant checked at every call boundary of generated plans"
 RULE = (
-    "Hypothesis draws a plan of calls (arguments: constants, nodes, nested containers holding nodes; plain dependencies; "
+    "(also: the failing consumer takes the value positionally, by keyword, or both) Hypothesis draws a plan of calls (arguments: constants, nodes, nested containers holding nodes; plain dependencies; "
     "optional registry with stored nodes and pure sources), an output spec, workers 1..4, scheduler, schedule; optionally consumers that fail (Exception) while max_errors lets the run continue - a failed consumer has finished too. Every call "
     "has a unique function name so completed notifications identify nodes. Oracle as in LEVEL_TEXT. Non-trivial = >= 1 "
     "value whose last consumer completes before the run ends (i.e. an early-releasable value exists and was checked dead "
